@@ -8,7 +8,7 @@
 (*     NONCONF <id> <group> {failed checks}                                *)
 (* and continues.                                                          *)
 (***************************************************************************)
-EXTENDS Community, Json, IOUtils
+EXTENDS Api, Json, IOUtils
 
 Rec == ndJsonDeserialize(IOEnv.TRACE)
 
@@ -85,6 +85,8 @@ Consume(e) ==
          [] e.op.suite = "components" -> Report(e, "components", ComponentsChecks(g, e.a))
          [] e.op.suite = "cluster" -> Report(e, "cluster", ClusterChecks(g, e.a))
          [] e.op.suite = "partitions" -> Report(e, "partitions", PartitionChecks(g, e.a))
+         [] e.op.suite = "eigen" -> (g.specs.multi \/ Report(e, "eigen", EigenChecks(g, e.a)))   \* C18 speaks of single-edge graphs
+         [] e.op.suite = "api" -> Report(e, "api", ApiChecks(g, e.a))
          [] e.op.suite = "louvain" -> Report(e, "louvain", LouvainChecks(g, e.a))
          [] OTHER -> PrintT("NONCONF " \o ToString(e.id) \o " unknown_suite {}")
 
